@@ -1210,3 +1210,31 @@ def map_try_update(R, ctx, rid):
     from .accessors import _canon
     a = [_canon(v.arg(ins[0], i, 10)) for i in range(len(ins[0].args))]
     R.ob(rid, fn, "write-args", a[0] == "self" and a[2] == "Into::into(key)" and a[3] == "Into::into(value)", "insert(%s)" % "; ".join(a), ins[0].loc())
+
+
+def format_balance(R, ctx, rid):
+    """R-PAIR opening marks are always closed."""
+    Y = ctx.yrs
+    R.rule(rid, "R-PAIR formatting marks are balanced: wherever text::insert_attributes integrates the opening marks of an attributed "
+                "insertion / format (text::insert, text::insert_format), text::insert_negated_attributes runs on EVERY path to the "
+                "function's return (post-dominance) and receives the negated set the opening call returned — an early return in "
+                "between (nothing to insert, range exhausted) leaves the opening marks unclosed and re-formats everything to the right")
+    n = 0
+    for root, css in sorted(callers_of(Y, "yrs::types::text::insert_attributes").items()):
+        for cs, site in ordinal_sites(css):
+            fn = cs.fn
+            v = FnView(fn)
+            cfg = fn.cfg()
+            n += 1
+            closes = fn.calls_to("yrs::types::text::insert_negated_attributes")
+            ok = False
+            why = "no insert_negated_attributes on every path behind the opening marks"
+            for c in closes:
+                arg = simp_deep(v.arg(c, 3, 12))
+                from_open = any(isinstance(x, tuple) and x and x[0] == "call" and len(x) > 3 and x[3] == cs.bb for x in walk(arg)) or \
+                    term_has_call(arg, "yrs::types::text::insert_attributes")
+                if cfg.dominates(cs.bb, c.bb) and cfg.postdominates(c.bb, cs.bb) and from_open:
+                    ok = True
+                    why = "closed on every path by insert_negated_attributes(%s)" % sshow(arg, 4)
+            R.ob(rid, fn, site, ok, why, cs.loc())
+    R.floor(rid, "callers of insert_attributes", n, 2)
